@@ -71,15 +71,17 @@ type crashSignal struct{}
 var errInjected = errors.New("verif: injected storage error")
 
 // plan: the Nth access (read "r" / write "w") of item At made while the plan is armed gets Effect.
+// K = "failall" is the PERSISTENT write fault: every write (Set / Delete) of item At fails for the whole call and for
+// the N-1 public calls that follow it (over restarts too); a retry inside the call meets the same error.
 type plan struct {
-	K  string // none | crash | crashafter | fail | rerr | rmiss | rempty
+	K  string // none | crash | crashafter | fail | failall | rerr | rmiss | rempty
 	At string // att | prop | acc | wal
 	N  int
 }
 
 func (p plan) none() bool { return p.K == "" || p.K == "none" }
 func (p plan) isWrite() bool {
-	return p.K == "crash" || p.K == "crashafter" || p.K == "fail"
+	return p.K == "crash" || p.K == "crashafter" || p.K == "fail" || p.K == "failall"
 }
 func (p plan) toMap() map[string]any {
 	if p.none() {
@@ -105,6 +107,11 @@ type faultDB struct {
 	fired bool
 	dead  bool // after a crash every further access dies too (nothing may be written while "unwinding")
 	log   []string
+	// persistent write fault (spec variable `broken`): every write of stickyAt fails during the next stickyLeft
+	// public calls; survives boot(). hold = a shadow request runs under it without using up one of its calls.
+	stickyAt   string
+	stickyLeft int
+	hold       bool
 	// gate mode (replay of the noSignLock attack): every write of the attestation record parks until released
 	gateOn bool
 	gateCh chan *parked
@@ -137,6 +144,22 @@ func (f *faultDB) arm(p plan) {
 	f.cntW = map[string]int{}
 	f.fired = false
 	f.log = f.log[:0]
+	if p.K == "failall" && f.stickyLeft == 0 && p.N > 0 {
+		f.stickyAt, f.stickyLeft = p.At, p.N
+	}
+}
+
+// sticky reports the persistent write fault in force (item, calls left)
+func (f *faultDB) sticky() (string, int) {
+	f.mu.Lock()
+	defer f.mu.Unlock()
+	return f.stickyAt, f.stickyLeft
+}
+
+func (f *faultDB) setHold(h bool) {
+	f.mu.Lock()
+	f.hold = h
+	f.mu.Unlock()
 }
 
 func (f *faultDB) disarm() (fired bool, log []string) {
@@ -144,6 +167,16 @@ func (f *faultDB) disarm() (fired bool, log []string) {
 	defer f.mu.Unlock()
 	fired = f.fired
 	log = append([]string(nil), f.log...)
+	if f.stickyLeft > 0 && !f.hold {
+		if f.p.K == "failall" && !f.fired {
+			f.stickyLeft = 0 // the call that was to start it wrote nothing to that record: the plan is not taken
+		} else {
+			f.stickyLeft--
+		}
+		if f.stickyLeft == 0 {
+			f.stickyAt = ""
+		}
+	}
 	f.p = plan{K: "none"}
 	return
 }
@@ -158,7 +191,10 @@ func (f *faultDB) onWrite(it string) string {
 	f.cntW[it]++
 	f.log = append(f.log, "w:"+it)
 	eff := ""
-	if !f.p.none() && f.p.isWrite() && f.p.At == it && f.cntW[it] == f.p.N && !f.fired {
+	if f.stickyLeft > 0 && it == f.stickyAt {
+		f.fired = true
+		eff = "fail"
+	} else if !f.p.none() && f.p.isWrite() && f.p.K != "failall" && f.p.At == it && f.cntW[it] == f.p.N && !f.fired {
 		f.fired = true
 		eff = f.p.K
 		if eff == "crash" {
@@ -588,12 +624,14 @@ func (w *world) signAtt(s, t, d int, p plan) (string, bool, error) {
 	var sig spectypes.Signature
 	var root [32]byte
 	pre := w.km.(slashChecker).IsAttestationSlashable(w.pk, w.attData(s, t, d)) // read-only pre-check used by the validator
+	// under a persistent write fault the read-only pre-check and the call differ by design
+	_, underSticky := w.fdb.sticky()
 	out, fired, err := w.call(p, func() error {
 		var e error
 		sig, root, e = w.km.SignBeaconObject(w.attData(s, t, d), phase0.Domain{}, w.pk, spectypes.DomainAttester)
 		return e
 	})
-	if p.none() && (pre == nil) != (out == "ok") && !strings.Contains(fmt.Sprint(err), "account not found") {
+	if p.none() && underSticky == 0 && (pre == nil) != (out == "ok") && !strings.Contains(fmt.Sprint(err), "account not found") {
 		w.res.Diverge(w.beh, w.step, "IsAttestationSlashable-vs-sign", fmt.Sprint(pre), out)
 	}
 	if out == "ok" && len(sig) > 0 {
@@ -618,12 +656,13 @@ func (w *world) signBlk(slot, d int, p plan) (string, bool, error) {
 	var sig spectypes.Signature
 	var root [32]byte
 	pre := w.km.(slashChecker).IsBeaconBlockSlashable(w.pk, phase0.Slot(slot))
+	_, underSticky := w.fdb.sticky()
 	out, fired, err := w.call(p, func() error {
 		var e error
 		sig, root, e = w.km.SignBeaconObject(w.block(slot, d), phase0.Domain{}, w.pk, spectypes.DomainProposer)
 		return e
 	})
-	if p.none() && (pre == nil) != (out == "ok") && !strings.Contains(fmt.Sprint(err), "account not found") {
+	if p.none() && underSticky == 0 && (pre == nil) != (out == "ok") && !strings.Contains(fmt.Sprint(err), "account not found") {
 		w.res.Diverge(w.beh, w.step, "IsBeaconBlockSlashable-vs-sign", fmt.Sprint(pre), out)
 	}
 	if out == "ok" && len(sig) > 0 {
@@ -786,6 +825,14 @@ func replay(b vh.Behaviour, spe int, res *vh.Result) {
 		a := st.Act
 		name := vh.Str(a, "name")
 		p := planOf(vh.Map(a, "fault"))
+		// a call under the remainder of a persistent write fault: the spec's `broken` and the wrapper must agree
+		_, stickyBefore := w.fdb.sticky()
+		if eff := planOf(vh.Map(a, "eff")); vh.Map(a, "eff") != nil && p.none() {
+			at, left := w.fdb.sticky()
+			if (eff.K == "failall") != (left > 0) || (eff.K == "failall" && (eff.At != at || eff.N != left)) {
+				res.Diverge(b.ID, i, name+".persistent-fault", eff.toMap(), map[string]any{"at": at, "left": left})
+			}
+		}
 		switch name {
 		case "init":
 		case "Tick":
@@ -834,15 +881,21 @@ func replay(b vh.Behaviour, spe int, res *vh.Result) {
 				nontrivial = true
 			}
 			// shadow request (faithful behaviours only): the same duty with DIFFERENT data right after the call.
-			// The spec refuses it in every state (after a release the record covers it, after a refusal nothing
-			// changed), so the real code must refuse it too; if it signs, the monitor sees a second root.
-			if p.none() && !strings.HasPrefix(b.ID, "attack") && (out == "signed" || out == "refused") {
+			// The spec refuses it in every state (after a release the record covers it, after a refusal without
+			// a fault nothing changed), so the real code must refuse it too; if it signs, the monitor sees a
+			// second root. After a RELEASE it is asked under every plan (a signature that got out although the
+			// write of the record failed is followed by the request that the record was to stop); after a refusal
+			// only when no fault was involved (a request refused for a failed write may be signed later).
+			// It runs under a persistent write fault that is still in force without using up one of its calls.
+			if !strings.HasPrefix(b.ID, "attack") && (out == "signed" || (out == "refused" && p.none() && stickyBefore == 0)) {
 				var sh string
+				w.fdb.setHold(true)
 				if name == "SignAtt" {
 					sh, _, _ = w.signAtt(vh.Int(a, "s"), vh.Int(a, "t"), vh.Int(a, "d")+2, plan{K: "none"})
 				} else {
 					sh, _, _ = w.signBlk(vh.Int(a, "slot"), vh.Int(a, "d")+2, plan{K: "none"})
 				}
+				w.fdb.setHold(false)
 				res.Counters["shadow_requests"]++
 				if sh != "refused" {
 					res.Diverge(b.ID, i, name+".shadow", "refused", sh)
@@ -884,6 +937,16 @@ func randPlan(rng *rand.Rand, op string) plan {
 	}
 	wk := []string{"crash", "crashafter", "fail"}
 	rk := []string{"rerr", "rmiss"}
+	if rng.Intn(4) == 0 {
+		// persistent write fault on one of the two protection records, lasting 1..3 public calls
+		at := []string{"att", "prop"}[rng.Intn(2)]
+		if op == "SignAtt" {
+			at = "att"
+		} else if op == "SignBlk" {
+			at = "prop"
+		}
+		return plan{K: "failall", At: at, N: 1 + rng.Intn(3)}
+	}
 	switch op {
 	case "AddShare", "Reactivate":
 		if rng.Intn(3) == 0 {
@@ -923,6 +986,13 @@ func record(path string, seed int64, runs, spe, maxSlot int, res *vh.Result) {
 			}
 			tw.Emit(ev)
 		}
+		// a call under the remainder of a persistent write fault carries no plan of its own (spec: Plans)
+		pick := func(op string) plan {
+			if _, left := w.fdb.sticky(); left > 0 {
+				return plan{K: "none"}
+			}
+			return randPlan(rng, op)
+		}
 		for s := 0; s < nsteps; s++ {
 			w.step = s
 			clock := int(w.net.slot.Load())
@@ -948,14 +1018,14 @@ func record(path string, seed int64, runs, spe, maxSlot int, res *vh.Result) {
 				}
 				ev = map[string]any{"event": "Tick", "clock": clock}
 			case x < 30:
-				p := randPlan(rng, "AddShare")
+				p := pick("AddShare")
 				out, fired, _ := w.addShare(p)
 				if !fired {
 					p = plan{K: "none"}
 				}
 				ev = map[string]any{"event": "AddShare", "fault": p.toMap(), "res": out}
 			case x < 38:
-				p := randPlan(rng, "RemoveShare")
+				p := pick("RemoveShare")
 				out, fired, _ := w.removeShare(p)
 				if !fired {
 					p = plan{K: "none"}
@@ -971,7 +1041,7 @@ func record(path string, seed int64, runs, spe, maxSlot int, res *vh.Result) {
 							tw.Emit(map[string]any{"event": "Tick", "clock": clock})
 						}
 					}
-					p2 := randPlan(rng, "AddShare")
+					p2 := pick("AddShare")
 					out2, fired2, _ := w.addShare(p2)
 					if !fired2 {
 						p2 = plan{K: "none"}
@@ -979,7 +1049,7 @@ func record(path string, seed int64, runs, spe, maxSlot int, res *vh.Result) {
 					ev = map[string]any{"event": "AddShare", "fault": p2.toMap(), "res": out2}
 				}
 			case x < 43:
-				p := randPlan(rng, "Reactivate")
+				p := pick("Reactivate")
 				out, fired, _ := w.reactivate(p)
 				if !fired {
 					p = plan{K: "none"}
@@ -998,7 +1068,7 @@ func record(path string, seed int64, runs, spe, maxSlot int, res *vh.Result) {
 					sEp = t - 1
 				}
 				d := 1 + rng.Intn(2)
-				p := randPlan(rng, "SignAtt")
+				p := pick("SignAtt")
 				out, fired, _ := w.signAtt(sEp, t, d, p)
 				if !fired {
 					p = plan{K: "none"}
@@ -1007,13 +1077,19 @@ func record(path string, seed int64, runs, spe, maxSlot int, res *vh.Result) {
 					signed++
 				}
 				ev = map[string]any{"event": "SignAtt", "s": sEp, "t": t, "d": d, "fault": p.toMap(), "res": out}
+				if out == "signed" && rng.Intn(3) == 0 {
+					// the request the record just written is there to stop: same target, other data
+					emitPost(ev)
+					out2, _, _ := w.signAtt(sEp, t, 3-d, plan{K: "none"})
+					ev = map[string]any{"event": "SignAtt", "s": sEp, "t": t, "d": 3 - d, "fault": plan{K: "none"}.toMap(), "res": out2}
+				}
 			default:
 				slot := 1 + rng.Intn(clock)
 				if rng.Intn(2) == 0 {
 					slot = clock
 				}
 				d := 1 + rng.Intn(2)
-				p := randPlan(rng, "SignBlk")
+				p := pick("SignBlk")
 				out, fired, _ := w.signBlk(slot, d, p)
 				if !fired {
 					p = plan{K: "none"}
@@ -1022,6 +1098,11 @@ func record(path string, seed int64, runs, spe, maxSlot int, res *vh.Result) {
 					signed++
 				}
 				ev = map[string]any{"event": "SignBlk", "slot": slot, "d": d, "fault": p.toMap(), "res": out}
+				if out == "signed" && rng.Intn(3) == 0 {
+					emitPost(ev)
+					out2, _, _ := w.signBlk(slot, 3-d, plan{K: "none"})
+					ev = map[string]any{"event": "SignBlk", "slot": slot, "d": 3 - d, "fault": plan{K: "none"}.toMap(), "res": out2}
+				}
 			}
 			emitPost(ev)
 		}
